@@ -50,7 +50,11 @@ func (c c04gcfg) name() string {
 	if c.desc {
 		d = "desc"
 	}
-	return fmt.Sprintf("groups-n%d-t%v-%s-%s-%s", c.n, c.th, st, c.mode, d)
+	x := ""
+	for _, t := range c.targets {
+		x += fmt.Sprint(t)
+	}
+	return fmt.Sprintf("groups-n%d-t%v-%s-%s%d-x%s-%s", c.n, c.th, st, c.mode, c.maxX, x, d)
 }
 
 // a choice of one voter: variant + expel set ("" = no expels; "-" variant = no ballot)
@@ -293,6 +297,10 @@ func TestVerifC04Groups(t *testing.T) {
 	defer r.Finish()
 	r.Rule("expel-group unit: vote set = one choice per member out of {no ballot, ballot for fact A/B without expels, ballot for fact A/B expelling one expel set of the palette}; every vote set is voted into a fresh real Ballotbox in every arrival order (4 members) / 4 orders (5 members), partial sets in member order; after the member-order history: Count, Count with reversed map iteration, hold time passes, ticker body, Count; every drained voteproof is judged; non-trivial = vote set with at least two different ballot facts carrying expels for which the box emitted a counted voteproof; states = distinct vote sets")
 	cfgs := c04gconfigs(r.Thorough())
+	if _, rp := r.Replaying(); rp {
+		// replays run in the quick tier: a case of either tier must be found (config names are unique)
+		cfgs = append(c04gconfigs(false), c04gconfigs(true)...)
+	}
 	fxs := map[string]*c04fx{}
 	item := 0
 	var st c04gstats
